@@ -65,6 +65,8 @@ def gen_case(prng: Prng, tier: str) -> dict:
         extra["pq_rowgroup"] = [prng.choice([chunksize, 2 * chunksize, chunksize + 1]), h, h, max(1, h - 1), h]
     if prng.chance(1, 6):
         extra["prior"], extra["overwrite"] = "catalog_reopened", True  # re-creation over an existing cache
+    if source == "fits" and prng.chance(1, 2):
+        extra["fits_hdu"] = prng.choice([2, 3])  # the table sits behind decoy extensions
     return dict(
         **extra,
         prop=PROP,
